@@ -12,6 +12,7 @@ pub mod c10;
 pub mod c12;
 pub mod c13;
 pub mod c14;
+pub mod c15;
 pub mod c16;
 pub mod c17;
 pub mod c18;
@@ -38,6 +39,7 @@ pub fn run(prop: &str, tier: Tier, replay: Option<Value>) -> ! {
         "C12" => c12::run(tier, replay),
         "C13" => c13::run(tier, replay),
         "C14" => c14::run(tier, replay),
+        "C15" => c15::run(tier, replay),
         "C16" => c16::run(tier, replay),
         "C17" => c17::run(tier, replay),
         "C18" => c18::run(tier, replay),
@@ -52,6 +54,7 @@ pub fn worker(kind: &str) -> Handler {
         "c01" => c01::worker(),
         "c12" => c12::worker(),
         "c14" => c14::worker(),
+        "c15" => c15::worker(),
         "c17" => c17::worker(),
         "c18" => c18::worker(),
         "c19" => c19::worker(),
